@@ -382,6 +382,46 @@ func runC17Round(w *World, round int) {
 		w.ProviderStep(nil, false, nil)
 		w.ConsumersStep()
 	}
+	// ---- a consumer is stopped (its client and channel bindings stay until the removal time); before it is removed another
+	// consumer with the same chain id is created naming its connection: it must not be bound to the stopped consumer's client
+	w.syncShadow()
+	ls := lb
+	if ci := w.Shadow.ByID[lb.CID]; ci == nil || ci.Owner == nil {
+		ls = la // the other live consumer is owned by governance (Top-N)
+	}
+	if ci := w.Shadow.ByID[ls.CID]; ci != nil && ci.Owner != nil && w.Phase(ls.CID) == phLaunch {
+		lb := ls
+		chainB, _ := w.P.PApp.ProviderKeeper.GetConsumerChainId(w.P.Ctx(), lb.CID)
+		w.Tick()
+		outs := w.ProviderStep([]TxSpec{{Signer: ci.Owner, Msgs: []sdk.Msg{&providertypes.MsgRemoveConsumer{ConsumerId: lb.CID, Owner: ci.Owner.Addr.String()}}, Tag: "remove-consumer"}}, true, nil)
+		if len(outs) == 1 && outs[0].OK() && w.Phase(lb.CID) == phStopped {
+			ip3 := DefaultInitParams(w.Now.Add(20*time.Second), w.Cfg.ConsumerUnbonding)
+			ip3.ConnectionId = lb.ProvConn
+			yID := w.createCWith(owner, chainB, ip3)
+			specs = nil
+			for _, v := range w.createdVals() {
+				specs = append(specs, TxSpec{Signer: v.Oper, Msgs: []sdk.Msg{MsgOptIn(v, yID, nil)}, Tag: "opt-in"})
+			}
+			w.Tick()
+			w.ProviderStep(specs, false, nil)
+			for i := 0; i < 8; i++ {
+				w.Tick()
+				w.ProviderStep(nil, false, nil)
+			}
+			w.Eval("C17")
+			w.Event("C17", "launch-on-connection-of-a-stopped-consumer")
+			w.Case("C17", "launch:second-consumer-names-connection-of-stopped-consumer phase="+w.Phase(yID).String())
+			pkp := w.P.PApp.ProviderKeeper
+			if w.Phase(lb.CID) == phStopped {
+				if cl, ok := pkp.GetClientIdToConsumerId(w.P.Ctx(), lb.ProvClient); !ok || cl != lb.CID {
+					w.Violation("C17", "client-attribution-changed-by-other-launch", map[string]any{"client": lb.ProvClient, "consumer": cl, "expected": lb.CID, "phase_of_expected": "stopped"})
+				}
+				if cl, ok := pkp.GetConsumerClientId(w.P.Ctx(), yID); ok && cl == lb.ProvClient {
+					w.Violation("C17", "two-consumers-bound-to-one-client", map[string]any{"client": cl, "consumers": []string{lb.CID, yID}})
+				}
+			}
+		}
+	}
 	w.FinalChecks()
 }
 
